@@ -89,6 +89,15 @@ func c06RunWL(c c06WL) error {
 	if err := entBitsOK(d.EntBits, ent); err != nil {
 		return err
 	}
+	if w.Sep.Kind == "draw" && w.Sep.DrawEnt == 0 && len(w.Sep.Draw) > 1 && w.Length > 1 {
+		// the caller's separator under-claims: only "never overstated" applies
+		hmin := -oracle.Log2Rat(maxP)
+		if float64(ent) > hmin && !oracle.Close32(ent, hmin, 4, 0) {
+			return fmt.Errorf("entropy overstated: Entropy() = %v, most likely password has probability 2^-%.4f", ent, hmin)
+		}
+		ev.Class("underclaiming_separator")
+		return nil
+	}
 	return checkMinEntropy(maxP, maxK, ent)
 }
 
